@@ -61,7 +61,7 @@ CONFIGS = {
                     ss=[False, True]),
     # all kinds x one-item declarations, None values
     "kinds3": dict(N=3, kinds=["plain", "datasource", "parser", "combiner", "rule", "condition"],
-                   outs=["val", "none", "skip"], items=1, grp=2, eouts=["val"]),
+                   outs=["val", "none", "falsy", "skip"], items=1, grp=2, eouts=["val"]),
     "rules3": dict(N=3, kinds=["rule", "condition", "combiner"], outs=["val", "none", "crash"], items=2,
                    grp=2, disabled=False),
     # fault placement with registry points and multi-output parsers, skip recording on and off
@@ -82,6 +82,10 @@ CONFIGS = {
     # smaller variants for the quick tier
     "kinds3q": dict(N=3, kinds=["plain", "datasource", "parser", "combiner", "rule", "condition"],
                     outs=["val", "none"], items=1, grp=1),
+    # real values that are false in a boolean context
+    "falsy3": dict(N=3, kinds=["plain", "datasource", "combiner", "condition"], outs=["val", "falsy"], items=1, grp=2),
+    # registry points with zero, one or two implementations (a member-less at-least-one group)
+    "points3": dict(N=3, kinds=["datasource", "point", "rule"], outs=["val", "skip"], items=1, grp=2),
     "rules3q": dict(N=3, kinds=["rule", "combiner"], outs=["val", "none"], items=2, grp=2),
     "dis3q": dict(N=3, kinds=["plain", "rule"], outs=["val"], items=1, grp=2, disabled=True),
     "faults3q": dict(N=3, kinds=["datasource", "parser", "point"], outs=["val", "list", "cmd", "skip"],
@@ -107,12 +111,13 @@ CONFIGS = {
 PLAN = {
     "C01": dict(quick=["shapes3", "seeds3", "arch3"], thorough=["shapes3", "seeds3", "lin4", "ignore3", "oog3", "arch3"],
                 drivers=["forced", "run", "closure", "incr", "group", "afterincr"]),
-    "C02": dict(quick=["kinds3q", "miss3q", "dis3q"], thorough=["kinds3", "rules3", "miss3q", "dis3q", "shapes3", "ignore3"],
+    "C02": dict(quick=["kinds3q", "miss3q", "dis3q", "points3", "falsy3"],
+                thorough=["kinds3", "rules3", "miss3q", "dis3q", "points3", "falsy3", "shapes3", "ignore3"],
                 drivers=["forced", "run"]),
     "C03": dict(quick=["faults3q", "faults3c", "elems3"], thorough=["faults3", "faults3b", "faults3c", "faults4", "rules3", "elems3full"],
                 drivers=["forced", "run"]),
     "C04": dict(quick=["lin4", "oog3", "arch3", "faultsP"], thorough=["lin4", "oog3", "arch3", "faultsP", "seeds3", "faults3q", "shapes3", "miss3q"],
-                drivers=["forced", "run", "incr", "pool2", "pool3s"],
+                drivers=["forced", "run", "incr", "group", "pool2", "pool3s"],
                 model_only=dict(quick=["pool4a"], thorough=["pool4a", "pool4b", "pool3"])),
 }
 
@@ -120,7 +125,7 @@ PLAN = {
 SIMF = dict(N=4, kinds=["datasource", "point", "combiner", "parser"], outs=["val", "crash", "cmd"],
             eouts=["val", "crash"], items=2, grp=2, ss=[False, True])
 SIM = dict(arch=[False, True], N=5, kinds=["plain", "datasource", "parser", "combiner", "rule", "condition", "point"],
-           outs=["val", "none", "list", "skip", "content", "cmd", "timeout", "crash"],
+           outs=["val", "none", "falsy", "list", "skip", "content", "cmd", "timeout", "crash"],
            eouts=["val", "none", "skip", "content", "cmd", "crash"], items=3, grp=2, seeded=True,
            disabled=True, oog=True, ignore=True, ss=[False, True])
 
